@@ -394,6 +394,34 @@ Proof.
   split; auto. symmetry. now apply Permutation_length.
 Qed.
 
+(* the untouched prefix ends where the first non-declaration statement starts; every statement
+   before it is a declaration (const/type/var or a function declaration); one chunk per remaining statement *)
+Lemma prefix_only_decls src toks pre cs : top_chunks src toks = Ok (Some (pre, cs)) ->
+  exists ss k s r p, split_stmts toks 0 [] [] = Ok ss /\ skipn k ss = s :: r /\
+    Forall (fun d => stmt_is_decl d = Ok true) (firstn k ss) /\ stmt_is_decl s = Ok false /\
+    first_pos s = Ok p /\ pre = sub src 0 p /\ length cs = length (s :: r).
+Proof.
+  intros H. unfold top_chunks in H.
+  destruct (split_spec toks 0 [] []) as (ss & tl & Hsp & Hwf & Hcat). simpl in Hsp. rewrite Hsp in H. cbn [bind] in H.
+  destruct (first_non_decl_spec ss 0 Hwf) as [[H1 _]|(k & H1 & Hk & Hd & s & r & Hsk & Hnd & Hsf)];
+    rewrite H1 in H; cbn [bind] in H; [discriminate|]. simpl Nat.add in H. rewrite Hsk in H.
+  cbn [starts flags] in H.
+  destruct (first_pos s) as [p| |] eqn:Ep; try discriminate. cbn [bind] in H.
+  destruct (starts r) as [ps| |] eqn:Es; try discriminate. cbn [bind] in H.
+  rewrite Hsf in H. cbn [bind] in H.
+  destruct (flags r) as [fs| |] eqn:Ef; try discriminate. cbn [bind hd] in H. injection H as <- <-.
+  exists ss, k, s, r, p. repeat split; auto.
+  assert (L1 : forall l ps, starts l = Ok ps -> length ps = length l).
+  { induction l as [|a l IH]; simpl; intros q Hq; [injection Hq as <-; auto|].
+    destruct (first_pos a); try discriminate. cbn [bind] in Hq. destruct (starts l) eqn:E; try discriminate.
+    cbn [bind] in Hq. injection Hq as <-. simpl. f_equal. auto. }
+  assert (L2 : forall l fs, flags l = Ok fs -> length fs = length l).
+  { induction l as [|a l IH]; simpl; intros q Hq; [injection Hq as <-; auto|].
+    destruct (stmt_is_func_decl a); try discriminate. cbn [bind] in Hq. destruct (flags l) eqn:E; try discriminate.
+    cbn [bind] in Hq. injection Hq as <-. simpl. f_equal. auto. }
+  cbn [length]. rewrite combine_length, cuts_length, (L1 _ _ Es), (L2 _ _ Ef). lia.
+Qed.
+
 (* ------------------------------------------------------------------ what a statement is:
    the statements returned by splitStmts tile the token list up to EOF / the last depth-0
    semicolon, every statement ends with a SEMICOLON at brace depth 0 and contains no other *)
